@@ -34,6 +34,13 @@ CHECKS = {
    design_ref='DESIGN.md section 6 / C03',
    technique='Coq proof (walker = spec = set membership) + eval/list/model three-way correspondence',
    note=TB + " Partial: 'where list can analyse, eval must answer' is checked on every generated query (an eval error with a successful list is a violation), not proved. Eight defects found by this check and C15's were repaired by fix: commits (known_findings.json)."),
+ 'C04': dict(
+   text="Machine-checked proof (Coq) of what the boolean checker diff_exact_b decides for diffs and reports of any size: at every pair of points (all workloads, first and one-past-last address of every IP range named anywhere) no covering entry "
+        "when both reports have none, otherwise exactly one entry of the right type carrying exactly c1 and c2 with the new/lost flags set iff the workload is absent from the other side; plus classification and range-merging lemmas of the mirror of diff.go. "
+        "The checker runs on the real `diff` against the real `list` of both sides for generated pairs with different policies, workloads and IP partitions; diff(A,A) empty and diff(B,A)=swap(diff(A,B)) are checked on the implementation; the implementation's diff is also compared with the mirror.",
+   design_ref='DESIGN.md section 6 / C04',
+   technique='Coq-verified pointwise checker applied to implementation outputs + mirror of diff.go compared with the implementation',
+   note=TB + " Partial: that agreement on the boundary points implies agreement on every address inside the ranges (common-refinement argument), and exactness of the mirror diff_model for all inputs, are not yet theorems; they are covered by the boundary-point choice (first / one-past-last address of every range) and by the per-run correspondence."),
  'C05': dict(
    text="Machine-checked proof (Coq) that the boolean checker wf_report_b decides well-formedness of a report of any size (one entry per ordered pair, no self or IP-IP pair, no empty connection, canonical "
         "connections with 'all' flagged, IP peers tiling 0.0.0.0-255.255.255.255 disjointly) and that the model's own entries satisfy the per-entry clauses for all inputs; the checker is then run on every "
